@@ -94,6 +94,12 @@ class Check:
         return True
 
     def finish(self):
+        try:
+            from . import match as _m
+            for q, name in sorted(set(_m.MISSING_LOCALS)):
+                self.broke('local variable `%s` expected in %s was not found (code was renamed / restructured: rule tables need an update)' % (name, q))
+        except Exception:
+            pass
         # floors
         counts = {}
         for i in self.instances:
